@@ -1249,6 +1249,25 @@ template<class Y> void __esft_hook(const enable_shared_from_this<Y> *e, Y *p, __
 // Maps keyed by a string or an enumeration are (also) used for libcellml's constant tables.
 template<class K, class V> struct __map_cap { static const size_t value = (__is_enum(K) || is_same<K, string>::value) ? VSTD_TABLE_CAP : VSTD_MAP_CAP; };
 
+// Containers keyed by object addresses (shared_ptr / weak_ptr with std::less or std::owner_less, raw pointers): the real
+// iteration order depends on where the allocator placed the objects, which no caller can rely on.  The model keeps such
+// containers in insertion order and looks keys up by (pointer) equality, so that positions stay concrete for the solver.
+template<class K, class C> struct __by_address { static const bool value = false; };
+template<class T> struct __by_address<shared_ptr<T>, less<shared_ptr<T>>> { static const bool value = true; };
+template<class T> struct __by_address<T *, less<T *>> { static const bool value = true; };
+template<class T> struct __by_address<weak_ptr<T>, owner_less<weak_ptr<T>>> { static const bool value = true; };
+template<class T> struct __by_address<shared_ptr<T>, owner_less<shared_ptr<T>>> { static const bool value = true; };
+template<class C> struct __addr_key
+{
+    template<class T> static const void *of(const shared_ptr<T> &p) { return p.get(); }
+    template<class T> static const void *of(T *p) { return p; }
+};
+template<class T> struct __addr_key<owner_less<T>>
+{
+    template<class U> static const void *of(const shared_ptr<U> &p) { return p.mC; }
+    template<class U> static const void *of(const weak_ptr<U> &p) { return p.mC; }
+};
+
 template<class K, class V, class C = less<K>> class map
 {
     static const size_t CAP = __map_cap<K, V>::value;
@@ -1301,21 +1320,29 @@ public:
             ptr()[--mN].~value_type();
         }
     }
+    template<class Q> bool hit(size_t i, const Q &k) const
+    {
+        if constexpr (__by_address<K, C>::value) {
+            return i < mN;
+        } else {
+            return i < mN && !mCmp(k, ptr()[i].first);
+        }
+    }
     template<class Q> iterator find(const Q &k)
     {
         size_t i = lower(k);
-        return (i < mN && !mCmp(k, ptr()[i].first)) ? ptr() + i : end();
+        return hit(i, k) ? ptr() + i : end();
     }
     template<class Q> const_iterator find(const Q &k) const
     {
         size_t i = lower(k);
-        return (i < mN && !mCmp(k, ptr()[i].first)) ? ptr() + i : end();
+        return hit(i, k) ? ptr() + i : end();
     }
     template<class Q> VSTD_INLINE size_t count(const Q &k) const { return find(k) != end() ? 1 : 0; }
     V &operator[](const K &k)
     {
         size_t i = lower(k);
-        if (i < mN && !mCmp(k, ptr()[i].first)) {
+        if (hit(i, k)) {
             return ptr()[i].second;
         }
         return place(i, value_type(k, V()))->second;
@@ -1341,7 +1368,7 @@ public:
     pair<iterator, bool> __insert(const value_type &v)
     {
         size_t i = lower(v.first);
-        if (i < mN && !mCmp(v.first, ptr()[i].first)) {
+        if (hit(i, v.first)) {
             return pair<iterator, bool>(ptr() + i, false);
         }
         return pair<iterator, bool>(place(i, v), true);
@@ -1387,8 +1414,14 @@ private:
     template<class Q> size_t lower(const Q &k) const
     {
         size_t i = 0;
-        while (i < mN && mCmp(ptr()[i].first, k)) {
-            ++i;
+        if constexpr (__by_address<K, C>::value) {
+            while (i < mN && __addr_key<C>::of(ptr()[i].first) != __addr_key<C>::of(k)) {
+                ++i;
+            }
+        } else {
+            while (i < mN && mCmp(ptr()[i].first, k)) {
+                ++i;
+            }
         }
         return i;
     }
@@ -1478,16 +1511,24 @@ public:
             ptr()[--mN].~K();
         }
     }
+    bool hit(size_t i, const K &k) const
+    {
+        if constexpr (__by_address<K, C>::value) {
+            return i < mN;
+        } else {
+            return i < mN && !mCmp(k, ptr()[i]);
+        }
+    }
     const K *find(const K &k) const
     {
         size_t i = lower(k);
-        return (i < mN && !mCmp(k, ptr()[i])) ? ptr() + i : end();
+        return hit(i, k) ? ptr() + i : end();
     }
     VSTD_INLINE size_t count(const K &k) const { return find(k) != end() ? 1 : 0; }
     pair<const K *, bool> insert(const K &k)
     {
         size_t i = lower(k);
-        if (i < mN && !mCmp(k, ptr()[i])) {
+        if (hit(i, k)) {
             return pair<const K *, bool>(ptr() + i, false);
         }
         if (mN >= CAP) {
@@ -1515,8 +1556,14 @@ private:
     size_t lower(const K &k) const
     {
         size_t i = 0;
-        while (i < mN && mCmp(ptr()[i], k)) {
-            ++i;
+        if constexpr (__by_address<K, C>::value) {
+            while (i < mN && __addr_key<C>::of(ptr()[i]) != __addr_key<C>::of(k)) {
+                ++i;
+            }
+        } else {
+            while (i < mN && mCmp(ptr()[i], k)) {
+                ++i;
+            }
         }
         return i;
     }
